@@ -21,10 +21,11 @@ pub fn gens(cx: &Cx) -> Vec<Gen> {
         Gen { name: "state", count: cx.n(20_000, 1_000_000), exhaustive: false },
         Gen { name: "runs", count: cx.n(600, 20_000), exhaustive: false },
         Gen { name: "bigfrag", count: 21, exhaustive: true },
+        Gen { name: "maxreuse", count: 48, exhaustive: true },
     ]
 }
 
-pub const RULE: &str = "lattice: every (PDU size, buffer size) pair of the size lattice L x L (L = 0..16, 25..27, 100, 255..257, 1000, 4080..4100, 8190..8195, 16384, 32767, 32768, 65520..65540, 69999, 70000) x 6 label cases (6-byte, 3-byte, broadcast, explicit re-use, 6-byte primed, 3-byte primed) for the first call, then up to 20 continuation calls with buffers drawn from L, 0..32 and exact-fit sizes; fragpos: encap_frag on every context position 0..=len+2 of PDUs of 0..=64 bytes x every buffer size 0..=40 and {100,4097,4098,70000}, and boundary positions of lattice-sized PDUs x L; ptypes: protocol types (all 65536 in thorough) x labels incl. zero and explicit re-use; ext: seeded extension chains of 0..4 entries incl. illegal combinations, fragmented on; state: seeded configuration + traffic prefix then a random call (atomicity over prior states); runs: whole PDUs driven to completion under constant-7, constant-8 and random >=7 byte schedules; bigfrag: continuation calls with 4080..=4100 bytes remaining x buffers {4090,4096..4101,5000,8000,65536,70000} at four context positions. Every call is one evaluation; a call is non-trivial when the oracle of this property had something to judge (see per-property note); fingerprint = hash(function, PDU length, buffer length, label case, context position, outcome class).";
+pub const RULE: &str = "lattice: every (PDU size, buffer size) pair of the size lattice L x L (L = 0..16, 25..27, 100, 255..257, 1000, 4080..4100, 8190..8195, 16384, 32767, 32768, 65520..65540, 69999, 70000) x 6 label cases (6-byte, 3-byte, broadcast, explicit re-use, 6-byte primed, 3-byte primed) for the first call, then up to 20 continuation calls with buffers drawn from L, 0..32 and exact-fit sizes; fragpos: encap_frag on every context position 0..=len+2 of PDUs of 0..=64 bytes x every buffer size 0..=40 and {100,4097,4098,70000}, and boundary positions of lattice-sized PDUs x L; ptypes: protocol types (all 65536 in thorough) x labels incl. zero and explicit re-use; ext: seeded extension chains of 0..4 entries incl. illegal combinations, fragmented on; state: seeded configuration + traffic prefix then a random call (atomicity over prior states); runs: whole PDUs driven to completion under constant-7, constant-8 and random >=7 byte schedules; maxreuse: re-use limits 1,2,3,254,255,0 x N+1 or 600 packets with one label (encap and encap_ext), then PDUs at the 16-bit total-length boundary for an empty and a full label; bigfrag: continuation calls with 4080..=4100 bytes remaining x buffers {4090,4096..4101,5000,8000,65536,70000} at four context positions. Every call is one evaluation; a call is non-trivial when the oracle of this property had something to judge (see per-property note); fingerprint = hash(function, PDU length, buffer length, label case, context position, outcome class).";
 
 fn fp(func: Func, plen: usize, blen: usize, lk: &str, pos: usize, outc: u64) -> u64 {
     mix(mix(mix(func as u64 + 1, plen as u64), mix(blen as u64, fnv(lk.as_bytes()))), mix(pos as u64, outc))
@@ -322,6 +323,36 @@ pub fn run_key(cx: &Cx, mask: u32, gen: &str, key: u64, rep: &mut Report) {
                         rep.count(if o.ok() { "state.ok" } else { "state.err" });
                     }
                 }
+            }
+        }
+        "maxreuse" => {
+            // re-use limit N: N+1 packets with one label (the last one is the N-th re-use), then calls at the
+            // 16-bit total-length boundary with that label (it must now be written in full, so the PDU that
+            // would fit with an empty label does not), and long runs through the 8-bit counter boundary
+            let n_max = [1u8, 2, 3, 254, 255, 0][(key % 6) as usize];
+            let label = gen_label(&mut rng, [0usize, 2][((key / 6) % 2) as usize]);
+            let ll = label_bytes(&label).len();
+            let use_ext = (key / 12) % 2 == 1;
+            let long_run = (key / 24) % 2 == 1;
+            let mut s = Sender::new(0x99);
+            s.enc.enable_re_use_label_with_max_consecutive(n_max);
+            let chain = gen_chain(&mut rng, 1, false);
+            let small = gen_pdu(&mut rng, 10, 0);
+            let runs = if long_run { 600 } else { n_max as usize + 1 };
+            for _ in 0..runs.min(700) {
+                let spec = CallSpec { func: if use_ext { Func::EncapExt } else { Func::Encap }, pdu: &small, frag_id: 1, ptype: 0x0800, label, exts: if use_ext { Some(&chain) } else { None }, ctx: None, buf_len: 64 };
+                let o = s.call(&spec, mask, rep, &replay);
+                note(rep, mask, &spec, &o);
+            }
+            // now at some point of the re-use cycle: PDUs around the limit for an empty and for a full label
+            for plen in [65533 - ll - 1, 65533 - ll, 65533 - ll + 1, 65533 - 1, 65533, 65534] {
+                let pdu = gen_pdu(&mut rng, plen, 4);
+                let mut s2 = Sender::new(0x9A);
+                s2.enc = s.enc.clone();
+                let spec = CallSpec { func: if use_ext { Func::EncapExt } else { Func::Encap }, pdu: &pdu, frag_id: 2, ptype: 0x0800, label, exts: if use_ext { Some(&chain) } else { None }, ctx: None, buf_len: 4097 };
+                let o = s2.call(&spec, mask, rep, &replay);
+                note(rep, mask, &spec, &o);
+                rep.count(if o.ok() { "maxreuse.boundary-ok" } else { "maxreuse.boundary-err" });
             }
         }
         "bigfrag" => {
